@@ -143,6 +143,9 @@ Section Chain.
     end.
 End Chain.
 
+(** the int the C function returns for a decision *)
+Definition verdict_val (c : filter_consts) (pass : bool) : Z := if pass then pass_val c else drop_val c.
+
 Definition names_before_sentinel := fix go (names : list (list byte)) : nat :=
   match names with
   | [] => O
@@ -155,11 +158,15 @@ Definition conv_is_atol (f : convfn) : bool := match f with ConvAtol => true | _
 
 (** a cast chain whose net effect is reduction modulo 2^b: every conversion is to a type of at
     least b bits and the last one is to the unsigned b-bit type *)
+Definition cast_bits (k : castk) : N := match k with CastS b | CastU b => b end.
 Fixpoint casts_mod (b : N) (l : list castk) : bool :=
   match l with
   | [] => false
-  | [CastU k] => k =? b
-  | CastS k :: l' | CastU k :: l' => (b <=? k) && casts_mod b l'
+  | k :: l' =>
+    match l' with
+    | [] => match k with CastU w => w =? b | CastS _ => false end
+    | _ :: _ => (b <=? cast_bits k) && casts_mod b l'
+    end
   end.
 
 (** side condition under which the general theorems hold; evaluated on the regenerated constants *)
